@@ -308,12 +308,71 @@ def run(chk):
         chk.cov['traces_validated_against_impl'] += tot
         chk.part('replay_layouts', histories=tot)
         os.remove(res.dump_path)
+    # two exporters alive at once, writing two files, their calls in every merge order (Interleave.tla): each file reads back as when written alone
+    ires = tlc.run(os.path.join(SPEC, 'common', 'Interleave.tla'), os.path.join(SPEC, 'common', 'MC_Interleave_33.cfg'), dump=True, timeout=300)
+    chk.tlc('MC_Interleave_33.cfg', ires, 'merge orders of two call histories of three calls each; an object depends on its own calls only')
+    if ires.dump_path and os.path.exists(ires.dump_path):
+        from ..tlaparse import parse_dump
+        from pylife.vmap import VMAPExport
+        orders = [st['order'] for st in parse_dump(ires.dump_path) if st['ia'] == 3 and st['ib'] == 3]
+        os.remove(ires.dump_path)
+        d = os.path.join(WORK, 'vmap', 'interleaved')
+        os.makedirs(d, exist_ok=True)
+        HIST = {'A': [('add_geometry', 'A', 'tet'), ('add_set', 'A', 1, 'tet', (30,), 'ES'), ('add_variable', 'STATE-1', 'A', 'STRESS_CAUCHY', 'tet')],
+                'B': [('add_geometry', 'B', 'tri2d'), ('add_geometry', 'C', 'mixed'), ('add_variable', 'STATE-2', 'C', 'DISPLACEMENT', 'mixed')]}
+
+        def one_call(ex, call):
+            if call[0] == 'add_geometry':
+                ex.add_geometry(call[1], mesh_frame(call[2]))
+            elif call[0] == 'add_set':
+                _, g, kind, k, members, name = call
+                (ex.add_node_set if kind == 0 else ex.add_element_set)(g, list(members), mesh_frame(k), name)
+            else:
+                _, st_, g, v, k = call
+                ex.add_variable(st_, g, v, mesh_frame(k))
+        nint = 0
+        with warnings.catch_warnings():
+            warnings.simplefilter('ignore')
+            alone = {}
+            try:
+                for w in 'AB':
+                    pth = os.path.join(d, 'alone_%s.vmap' % w)
+                    if os.path.exists(pth):
+                        os.remove(pth)
+                    ex = VMAPExport(pth)
+                    for call in HIST[w]:
+                        one_call(ex, call)
+                    alone[w] = project(pth, None)
+                for order in orders:
+                    nint += 1
+                    paths = {w: os.path.join(d, 'il_%s.vmap' % w) for w in 'AB'}
+                    for pth in paths.values():
+                        if os.path.exists(pth):
+                            os.remove(pth)
+                    exs = {w: VMAPExport(paths[w]) for w in 'AB'}
+                    k = {'A': 0, 'B': 0}
+                    for w in order:
+                        one_call(exs[w], HIST[w][k[w]])
+                        k[w] += 1
+                    for w in 'AB':
+                        if project(paths[w], None) != alone[w]:
+                            chk.violation('a file written by one of two exporters used alternately reads back differently from the same calls on an exporter used alone',
+                                          {'calls': {x: [list(c) for c in HIST[x]] for x in 'AB'}, 'order': list(order), 'which': w}, None, None, part='interleaved')
+                            break
+                    else:
+                        chk.nontrivial(('interleaved', order))
+            except Exception as ex_:
+                chk.violation('two exporters used alternately: raised %r' % ex_, {'calls': {x: [list(c) for c in HIST[x]] for x in 'AB'}}, part='interleaved')
+        shutil.rmtree(d, ignore_errors=True)
+        chk.evals(nint)
+        chk.cov['traces_validated_against_impl'] += nint
+        chk.part('interleaved', runs=nint, merge_orders=len(orders))
     xy_only_probe(chk, fs)
     chk.cov['rule'] = ('TLC explores every call history up to MaxDepth over 2 geometry names x 6 catalogue meshes (2-D tri/quad, tet4 with gapped descending ids, tet4 with interleaved rows, mixed tet4+wedge6, an '
                        'unsupported 5-node element), node/element sets (valid, reversed, not a subset), nodal / element-nodal / unknown variables in 2 states, including every failing call; each reachable '
                        'state (= one history) is executed on a fresh VMAPExport file and the file is projected through VMAPImport (+ raw MYSIZE counters) and compared with the specification state, '
                        'values being distinguishable doubles per (mesh, row, column). Non-trivial = history with a failing call or with a variable.')
-    chk.cov['rule'] += ' Variable kinds incl. the known variable from a frame lacking its columns (write-step failure) and with explicit other column names; element sets in descending order, row order of filtered meshes, chained filters; prefix instance: two geometries already in the file plus three calls (seeded sample); layout instance: a 2-D frame without z column and a 3-D frame with columns z, y, x next to 3-D geometries and failed attempts.'
+    chk.cov['rule'] += ' Variable kinds incl. the known variable from a frame lacking its columns (write-step failure) and with explicit other column names; element sets in descending order, row order of filtered meshes, chained filters; prefix instance: two geometries already in the file plus three calls (seeded sample); layout instance: a 2-D frame without z column and a 3-D frame with columns z, y, x next to 3-D geometries and failed attempts; two exporters writing two files alternately in all 20 merge orders of 3 + 3 calls (Interleave.tla).'
     chk.cov['exhaustive'] = True
     chk.assumptions += ['ids within int32; 2-D meshes carry a constant z column (frames without a z column: see known findings)']
 
